@@ -138,3 +138,11 @@ impl Iterator for TokenIter<'_> {
         }
     }
 }
+
+// Verification hook (add-only, `cargo kani` only): plain constructor.
+#[cfg(kani)]
+impl<'a> TokenIter<'a> {
+    pub(crate) fn verif_new(matcher: ReMatcher<'a>, prev_end: Option<usize>) -> Self {
+        TokenIter { matcher, prev_end }
+    }
+}
